@@ -27,7 +27,8 @@ class C03(CtxCheck):
     def rule(self, tier: str) -> str:
         return ("BFS over histories of succeeding and failing add_resource / add_resource_factory calls (conflicts on first/second type, "
                 "11 invalid-argument forms), generating lookups, child creation, leave; compared with the model after every step; "
-                "states = distinct canonical (model, impl) pairs")
+                "states = distinct canonical (model, impl) pairs; plus racing families (hand-out stability) and 168 re-entrant-factory scenarios "
+                "(a factory callback that publishes a static resource under another of the factory's own pairs)")
 
     def bounds(self, tier: str) -> dict:
         return {"depth_beyond_seed": self.depth(tier), "max_contexts": self.max_ctx, "invalid_forms": list(BAD)}
@@ -54,9 +55,17 @@ class C03(CtxCheck):
     def units(self, tier: str, seed: int) -> list:
         from .c04race import adder_units, two_type_units
 
-        return super().units(tier, seed) + adder_units(tier) + two_type_units(tier)
+        from . import reent
+
+        return super().units(tier, seed) + adder_units(tier) + two_type_units(tier) + reent.units(tier)
+
+    REENT_KEYS = {"reentrant", "stable", "visible"}
 
     def work(self, unit: dict, tier: str) -> dict:
+        if "reent" in unit:
+            from . import reent
+
+            return reent.work(unit, self.REENT_KEYS)
         if "race" in unit:
             from .c04race import RACE
 
@@ -68,6 +77,10 @@ class C03(CtxCheck):
         return super().work(unit, tier)
 
     def replay(self, rec: dict):  # type: ignore[no-untyped-def]
+        if "reent" in rec.get("program", {}):
+            from . import reent
+
+            return reent.replay(rec, self.id, self.REENT_KEYS)
         if "race" in rec.get("program", {}):
             from .c04race import RACE
 
